@@ -127,7 +127,9 @@ class Gen:
             s = min(size, 8)
             return self.mk(self.vout(s), rng.choice(UNARY), self.vin(s))
         if k < 0.64:
-            return self.mk(self.vout(1), rng.choice(["BOOL_NEGATE", "FLOAT_NAN"]), self.vin(rng.choice([1]) if True else 1))
+            if rng.random() < 0.5:
+                return self.mk(self.vout(1), "BOOL_NEGATE", self.vin(1))
+            return self.mk(self.vout(1), "FLOAT_NAN", self.vin(rng.choice([4, 8])))
         if k < 0.72:
             small, big = rng.choice([(1, 2), (1, 4), (2, 4), (4, 8), (1, 8), (2, 8), (8, 16), (4, 16)])
             return self.mk(self.vout(big), rng.choice(EXT), self.vin(small))
@@ -285,10 +287,13 @@ def exhaustive_single(max_items=None):
         for o in outs(1):
             for a in ins(1):
                 defs.append((o, m, a, ins(1)[0], None))
-    for m in ("BOOL_NEGATE", "FLOAT_NAN"):
-        for o in outs(1):
-            for a in ins(1):
-                defs.append((o, m, a, None, None))
+    for o in outs(1):
+        for a in ins(1):
+            defs.append((o, "BOOL_NEGATE", a, None, None))
+        # FLOAT_NAN: float operand of 4 or 8 bytes, 1-byte boolean result
+        for s in (4, 8):
+            for a in ins(s):
+                defs.append((o, "FLOAT_NAN", a, None, None))
     for small, big in [(1, 2), (1, 4), (2, 4), (4, 8), (1, 8), (2, 8), (8, 16), (4, 16)]:
         for m in EXT:
             for o in outs(big) if big in POOL else [temp("$U1", big)]:
